@@ -5,7 +5,7 @@
    operations (arbitrary inputs, including verdicts, drawn challenges, payment outcomes) from the
    empty store for the reward theorem. *)
 From Coq Require Import ZArith NArith List Bool.
-From JK Require Import Base.Dec Base.AList Model.StorageFiles Proofs.StorageFilesProofs Proofs.StorageFilesFrame Proofs.RewardBridge.
+From JK Require Import Base.Dec Base.AList Model.StorageFiles Proofs.StorageFilesProofs Proofs.StorageFilesFrame Proofs.StorageFilesRecency Proofs.RewardBridge.
 Import ListNotations.
 Open Scope Z_scope.
 
@@ -37,6 +37,28 @@ Theorem C01_postproof_touches_only_its_own_pair :
   (forall fk, fk <> (merkle, owner, start) -> get_file (r_state r) fk = get_file s fk).
 Proof. exact postproof_frame. Qed.
 Print Assumptions C01_postproof_touches_only_its_own_pair.
+
+(* "Stays credited as a prover only by submitting a proof (or by a completed attestation quorum)": the reward block
+   judges a listed prover by the LastProven of its proof record ([proven_last_block]); along every history from
+   genesis, every LastProven value of every proof record is the height of an earlier step that was either an
+   accepted PostProof with a verifying proof by that prover for that file, or an Attest that completed the quorum
+   on the form of that prover and file.  Posting and deleting files, form requests, reports, provider
+   registration and shutdown, and reward blocks never create a proof record nor move a LastProven
+   ([step_last], [pshrinks_*] in Proofs/StorageFilesRecency.v). *)
+Theorem C01_every_last_proven_is_the_height_of_a_valid_proof_or_quorum :
+  forall k ops r,
+    get_proof (run init ops) k = Some r ->
+    exists ops1 o ops2, ops = ops1 ++ o :: ops2 /\ refreshed_by (run init ops1) o k (p_last r).
+Proof. exact last_proven_from_genesis. Qed.
+Print Assumptions C01_every_last_proven_is_the_height_of_a_valid_proof_or_quorum.
+
+(* ... and one step at a time, from any state of the invariant: the record's LastProven is the old one, or the
+   step is such a proof / quorum at the step's own height *)
+Theorem C01_a_step_keeps_or_justifies_every_last_proven :
+  forall s o k r', Inv s -> get_proof (step s o) k = Some r' ->
+    (exists r, get_proof s k = Some r /\ p_last r = p_last r') \/ refreshed_by s o k (p_last r').
+Proof. exact step_last. Qed.
+Print Assumptions C01_a_step_keeps_or_justifies_every_last_proven.
 
 (* An attestation never touches a file entry, and changes a proof record only when the form of
    the named (prover, file) exists, lists the attester and reaches AttestMinToPass with this
